@@ -93,6 +93,14 @@ func init() {
 			{Name: "cloned-prototypes", Weight: 1},
 		},
 		Run:      runC16,
+		Probes: []core.FindingProbe{
+			// Baum-Welch with a final state restriction: a recorded minimal run
+			{ID: "C16-F1", Run: func(c *core.Ctx) {
+				c.Tape = core.NewReplayTape([]int{1, 1, 0, 0, 0, 0, 0, 0, 0, 0, 0, 0, 0, 0, 0, 0, 0, 0, 0, 0, 0, 0, 1, 0, 0, 1, 11, 0, 1})
+				c.Scenario = "hmm-monotone"
+				RunVectorHmm(c, true)
+			}},
+		},
 		StepUnit: "scheduling decisions of the simulated pool",
 		Rule: "same workloads as C17 (scalar closed-form estimators, scalar mixtures incl. the summarised data set, vector HMMs, matrix mixtures / matrix HMMs / matrix HMMs whose emissions are vector mixtures = nested EM), executed under a drawn simulated pool. Closed-form estimators: the weighted log-likelihood L = sum_i exp(gamma_i) log p(x_i; theta), evaluated by the harness through the family's own LogPdf, must not increase for any admissible perturbation theta +- h e_j (h = 1e-2, 1e-4 relative) of the returned parameters. EM / Baum-Welch: the likelihood trace collected through EmHook / BaumWelchHook must be non-decreasing (1e-9 relative). Non-trivial = at least two observations. Distinct = hash of the executed (executor, job) sequence.",
 		Assumptions: []string{
